@@ -41,6 +41,16 @@ def run(ctx):
     if len(loops) != 1 or not isinstance(loops[0].target, ast.Name):
         raise AnalysisError("W2", "formatter loop shape not recognised")
     var = loops[0].target.id
+    ctx.rule("W7", "the formatter iterates the caller's argument list itself and emits exactly one element per argument")
+    fparam = fmt.params[1] if len(fmt.params) > 1 else None
+    if isinstance(loops[0].iter, ast.Name) and loops[0].iter.id == fparam and not any(
+            isinstance(a, (ast.Assign, ast.AugAssign)) and fparam in {norm(t) for t in (a.targets if isinstance(a, ast.Assign) else [a.target])}
+            for a in walk_no_nested(fmt.node)):
+        ctx.holds("W7", "%s iterates `%s` directly" % (fmt.qualname, fparam))
+    else:
+        ctx.violation("W7", fmt, "args-filtered", "the formatter does not iterate the caller's argument list itself but %s: arguments can be "
+                      "dropped, reordered or duplicated" % norm(loops[0].iter), node=loops[0],
+                      witness='setactive("") sends `SETACTIVE` without its (empty) argument; havespace(name, 0) loses the size')
     emits = []  # (stmt, element expr)
     for st in walk_no_nested(loops[0]):
         if isinstance(st, ast.AugAssign) and isinstance(st.op, ast.Add) and isinstance(st.value, ast.List):
@@ -174,6 +184,27 @@ def run(ctx):
         else:
             raise AnalysisError("W2", "formatter emission %s not recognised" % norm(el))
     ctx.need("W2", "quoting branches", nq, 1)
+    # exactly one emission per iteration
+    head = [n for n in cfg.nodes_for(loops[0]) if n.kind == "loop"][0]
+    enodes = [x for st, _ in emits for x in cfg.nodes_for(st)]
+    body_entry = [m for m, _ in head.succ if m.kind == "fact" and m.info == "for-next"]
+    skip = head in cfg.reach(body_entry, avoid=enodes, exc=False)
+    twice = any(any(e2 in cfg.reach([m for m, _ in e1.succ], avoid=[head], exc=False) for e2 in enodes) for e1 in enodes)
+    if skip:
+        ctx.violation("W7", fmt, "argument-skipped", "an iteration of the formatter can end without emitting anything: that argument vanishes "
+                      "from the command", node=loops[0], witness="a falsy / unexpected argument value is silently dropped")
+    elif twice:
+        ctx.violation("W7", fmt, "argument-duplicated", "an iteration of the formatter can emit two elements for one argument", node=loops[0])
+    else:
+        ctx.holds("W7", "every iteration emits exactly one element (%d emission sites)" % len(emits))
+    # the result list is returned unmodified
+    rets = [r for r in walk_no_nested(fmt.node) if isinstance(r, ast.Return) and r.value is not None]
+    acc = {norm(st.target) for st, _ in emits if isinstance(st, ast.AugAssign)} | {norm(st.value.func.value) for st, _ in emits if isinstance(st, ast.Expr)}
+    if rets and all(isinstance(r.value, ast.Name) and r.value.id in acc for r in rets):
+        ctx.holds("W7", "the accumulated list is returned as is")
+    else:
+        ctx.violation("W7", fmt, "result-altered", "the formatter does not return the accumulated list as is: %s" % (norm(rets[0].value) if rets else "nothing"),
+                      node=rets[0] if rets else fmt.node)
     # every bytes value is emitted by exactly one branch: emission statements are mutually exclusive per iteration
     # (each is followed by continue or is the last statement)
 
